@@ -835,6 +835,9 @@ impl<F: Read + Write + Seek> CompoundFile<F> {
             Some(stream_id) => stream_id,
             None => not_found!("Parent storage doesn't exist"),
         };
+        if self.minialloc().dir_entry(parent_id).obj_type == ObjType::Stream {
+            not_found!("Parent storage doesn't exist");
+        }
         self.minialloc_mut().insert_dir_entry(
             parent_id,
             name,
@@ -1018,6 +1021,9 @@ impl<F: Read + Write + Seek> CompoundFile<F> {
             Some(stream_id) => stream_id,
             None => not_found!("Parent storage doesn't exist"),
         };
+        if self.minialloc().dir_entry(parent_id).obj_type == ObjType::Stream {
+            not_found!("Parent storage doesn't exist");
+        }
         let new_stream_id = self.minialloc_mut().insert_dir_entry(
             parent_id,
             name,
